@@ -85,7 +85,8 @@ _SPARSE_FNS = ["sparse_sum", "sparse_diff", "sparse_mul", "sparse_euclidean", "s
 MODULES["sparse"] = {
     "path": "umap/sparse.py", "functions": _SPARSE_FNS,
     "sigs": {f: {"args": _SPARSE_ARGS, "fuel": "ind1.shape[0] + ind2.shape[0]", "opaque": _SPARSE_OPAQUE} for f in _SPARSE_FNS},
-    "files": ["L_sparse.v"], "deps": ["model/M_sparse.v"],
+    "files": ["L_sparse.v", "K_sparse.v"], "also": ["distances"],
+    "deps": ["model/M_sparse.v", "thm/T_sparse.v", "thm/T_sparse_metrics.v", "thm/T_sparse_corr.v", "thm/T_sparse_link.v", "prop/P_C13.v"],
 }
 
 # init_update (umap_.py, C11): an in-place update of the rows n_original_samples.. of a 2-d float array that reads the rows below
@@ -166,13 +167,21 @@ def prepare(module, timeout=600):
     # the header names the path; keep the key independent of where the tree lives
     text = text.replace(src_path, cfg["path"])
     res.translated, res.src_text = report, text
+    # `also`: other modules whose generated source and link files this module's corollaries need in scope (e.g. sparse metric
+    # = dense metric: both translated sources); they are generated and compiled first, in the same directory
+    also = []
+    for om in cfg.get("also", ()):
+        oc = MODULES[om]
+        otext, orep = py2coq.translate_module(os.path.join(REPO, oc["path"]), oc["functions"], oc.get("sigs"), oc.get("consts"), **({"const_names": oc["const_names"]} if "const_names" in oc else {}))
+        otext = otext.replace(os.path.join(REPO, oc["path"]), oc["path"])
+        also.append((om, otext, [(f, open(os.path.join(LINKSRC, f)).read()) for f in oc["files"] if f.startswith("L_")], orep))
     files = [(f, open(os.path.join(LINKSRC, f)).read()) for f in cfg["files"]]
     evalf = cfg.get("eval")
     evaltext = open(os.path.join(LINKSRC, evalf)).read() if evalf and os.path.exists(os.path.join(LINKSRC, evalf)) else None
     libsig = ""
     for lib in ("lib/PyPrim.v", "lib/PyPrimLemmas.v", "thm/T_link.v", "lib/Num.v") + tuple(cfg.get("deps", ())):
         libsig += open(os.path.join(coqrun.COQ, lib)).read()
-    key = _sha(text, *[t for _, t in files], evaltext or "", libsig)
+    key = _sha(text, *[t for _, t in files], evaltext or "", libsig, *[ot for _, ot, _, _ in also], *[t for _, _, fs, _ in also for _, t in fs])
     d = os.path.join(CACHE, module + "_" + key)
     res.dir = d
     os.makedirs(d, exist_ok=True)
@@ -190,6 +199,15 @@ def prepare(module, timeout=600):
         open(srcfile, "w").write(text)
         ok, so, se, _ = _coqc(srcfile, d, timeout)
         res.ok = ok
+        for om, otext, ofiles, orep in also:
+            op_ = os.path.join(d, "Src_%s.v" % om)
+            open(op_, "w").write(otext)
+            ok_o, so_o, se_o, _ = _coqc(op_, d, timeout)
+            if not ok_o:
+                res.errors.append("generated Src_%s.v (needed by %s) does not compile: %s" % (om, module, (se_o or so_o)[-300:].replace("\n", " ")))
+            for fname, ftext in ofiles:
+                sub = LinkResult()
+                _check_link_file(sub, d, fname, ftext, timeout)     # cut-out of failing theorems applies here too
         if not ok:
             res.errors.append("generated Src_%s.v does not compile: %s" % (module, (se or so)[-400:].replace("\n", " ")))
         else:
